@@ -13,6 +13,13 @@ def hexDigit' (n : UInt8) : Char :=
 def hex (b : Bytes) : String :=
   if b.isEmpty then "-" else String.ofList (b.flatMap fun (c : UInt8) => [hexDigit' (c >>> 4), hexDigit' (c &&& 15)])
 
+def timeStr : Option Nat → String
+  | none => "omit"
+  | some t => toString t
+
+def parseTime (s : String) : Option (Option Nat) :=
+  if s == "omit" then some none else s.toNat?.map some
+
 def callStr : Call → String
   | .opendir p => s!"opendir {hex p}"
   | .readdir d => s!"readdir {d}"
@@ -36,7 +43,7 @@ def callStr : Call → String
   | .unlink p => s!"unlink {hex p}"
   | .fstatat d n => s!"fstatat {d} {hex n}"
   | .stat p => s!"stat {hex p}"
-  | .utimensat d n => s!"utimensat {d} {hex n}"
+  | .utimensat d n a m => s!"utimensat {d} {hex n} {timeStr a} {timeStr m}"
   | .lseek fd => s!"lseek {fd}"
   | .mkostemp t => s!"mkostemp {hex t}"
   | .mkdtemp t => s!"mkdtemp {hex t}"
@@ -77,7 +84,7 @@ def parseCall (ts : List String) : Option (Call × List String) :=
   | "unlink" :: p :: r => (unhex p).map fun p => (.unlink p, r)
   | "fstatat" :: d :: nm :: r => do let d ← n d; let nm ← unhex nm; pure (.fstatat d nm, r)
   | "stat" :: p :: r => (unhex p).map fun p => (.stat p, r)
-  | "utimensat" :: d :: nm :: r => do let d ← n d; let nm ← unhex nm; pure (.utimensat d nm, r)
+  | "utimensat" :: d :: nm :: a :: m :: r => do let d ← n d; let nm ← unhex nm; let a ← parseTime a; let m ← parseTime m; pure (.utimensat d nm a m, r)
   | "lseek" :: d :: r => (n d).map fun d => (.lseek d, r)
   | "mkostemp" :: p :: r => (unhex p).map fun p => (.mkostemp p, r)
   | "mkdtemp" :: p :: r => (unhex p).map fun p => (.mkdtemp p, r)
